@@ -243,32 +243,65 @@ inductive LockRes | acquired | notAcquired | noSuchLock | ok | other
 def lock (cfg : Cfg) (r : Route) (reach : Reach) (c : Cluster) (dm : Bytes) (k : Key) (token : Bytes)
     (timeout now : Int) : Cluster × LockRes :=
   let pc : PutCfg := { nx := true, ttl := if timeout != 0 then .px timeout else .none }
-  match put { cfg with dmTTL := cfg.dmTTL } r reach c dm k token pc now with
+  match put cfg r reach c dm k token pc now with
   | (c', .ok) => (c', .acquired)
   | (c', .keyFound) => (c', .notAcquired)
   | (c', _) => (c', .other)
 
-/-- Unlock: compare the token, then delete -/
+/-- unlockKey, first half: read the key (a full `get`) and compare the token; `none` = go on -/
+def unlockChk (cfg : Cfg) (r : Route) (reach : Reach) (c : Cluster) (dm : Bytes) (k : Key) (token : Bytes) (now : Int) :
+    Cluster × Option LockRes :=
+  match get cfg r reach c dm k now with
+  | (c1, .val x) => if x.val = token then (c1, none) else (c1, some .noSuchLock)
+  | (c1, .notFound) => (c1, some .noSuchLock)
+  | (c1, _) => (c1, some .other)
+
+/-- unlockKey, second half (deleteLockKey): under the owner's fragment lock the stored entry is compared
+    with the token once more — the lock may have expired and been taken by somebody else since the
+    first half — and only then deleted.  A missing local copy (it may live only on a previous owner or
+    on the backups) is deleted wherever it lives, as Delete does. -/
+def unlockFin (cfg : Cfg) (r : Route) (c : Cluster) (dm : Bytes) (k : Key) (token : Bytes) (now : Int) :
+    Cluster × LockRes :=
+  match c.copy r.owner .prim dm k with
+  | some x => if expired x.ttl now || x.val != token then (c, .noSuchLock) else (del cfg r c dm k, .ok)
+  | none => (del cfg r c dm k, .ok)
+
+/-- Unlock: both halves at one instant -/
 def unlock (cfg : Cfg) (r : Route) (reach : Reach) (c : Cluster) (dm : Bytes) (k : Key) (token : Bytes) (now : Int) :
     Cluster × LockRes :=
-  match get cfg r reach c dm k now with
-  | (c1, .val x) => if x.val = token then (del cfg r c1 dm k, .ok) else (c1, .noSuchLock)
-  | (c1, .notFound) => (c1, .noSuchLock)
-  | (c1, _) => (c1, .other)
+  match unlockChk cfg r reach c dm k token now with
+  | (c1, some e) => (c1, e)
+  | (c1, none) => unlockFin cfg r c1 dm k token now
 
-/-- Lease: compare the token, then Expire -/
-def lease (cfg : Cfg) (r : Route) (reach : Reach) (c : Cluster) (dm : Bytes) (k : Key) (token : Bytes)
-    (timeout now : Int) : Cluster × LockRes :=
+/-- leaseKey, first half: read the key and compare the token -/
+def leaseChk (cfg : Cfg) (r : Route) (reach : Reach) (c : Cluster) (dm : Bytes) (k : Key) (token : Bytes) (now : Int) :
+    Cluster × Option LockRes :=
   match get cfg r reach c dm k now with
   | (c1, .val x) =>
-    if x.val = token then
-      match expire cfg r reach c1 dm k timeout now with
+    if x.val = token then (if x.ttl > 0 && decide (Int.tdiv now 1000000 ≥ x.ttl) then (c1, some .noSuchLock) else (c1, none))
+    else (c1, some .noSuchLock)
+  | (c1, .notFound) => (c1, some .noSuchLock)
+  | (c1, _) => (c1, some .other)
+
+/-- leaseKey, second half (expireLockKey): Expire guarded by the token under the owner's fragment lock -/
+def leaseFin (cfg : Cfg) (r : Route) (reach : Reach) (c : Cluster) (dm : Bytes) (k : Key) (token : Bytes)
+    (timeout now : Int) : Cluster × LockRes :=
+  match c.copy r.owner .prim dm k with
+  | some x =>
+    if expired x.ttl now || x.val != token then (c, .noSuchLock)
+    else
+      match expire cfg r reach c dm k timeout now with
       | (c2, .ok) => (c2, .ok)
       | (c2, .notFound) => (c2, .noSuchLock)
       | (c2, _) => (c2, .other)
-    else (c1, .noSuchLock)
-  | (c1, .notFound) => (c1, .noSuchLock)
-  | (c1, _) => (c1, .other)
+  | none => (c, .noSuchLock)
+
+/-- Lease: both halves at one instant -/
+def lease (cfg : Cfg) (r : Route) (reach : Reach) (c : Cluster) (dm : Bytes) (k : Key) (token : Bytes)
+    (timeout now : Int) : Cluster × LockRes :=
+  match leaseChk cfg r reach c dm k token now with
+  | (c1, some e) => (c1, e)
+  | (c1, none) => leaseFin cfg r reach c1 dm k token timeout now
 
 /-- Destroy: every member drops the DMap's primary and backup fragments -/
 def destroy (c : Cluster) (dm : Bytes) : Cluster :=
